@@ -256,6 +256,67 @@ Arguments PVar {P F} name value.
 Arguments File {P F V} incs opts macs stmts.
 Arguments mkOpt {V} o_name o_default.
 
+(* ------------------------------------------------------------------ histories of runs *)
+(* A chain of generate() calls in one process.  Every link has its own recipe (declarations), its
+   own user_options, and either starts afresh or continues the run before it from that run's
+   continuation file.  generate() calls merge_options(parse_result.options, user_options, ...)
+   on the arguments of THIS call; the continuation file (Globals.__getstate__: last used ids,
+   just_once rows, nicknames, today, dependencies) has no entry for options and is loaded only
+   after the merge.  The model threads the continuation through the chain as the code does - a
+   run that fails leaves no usable file, the next link goes on from the last run that succeeded -
+   and keeps of the file only how many runs of history stand behind it. *)
+Section Chain.
+  Variable V : Type.
+
+  Record link := mkLink {
+    l_decls : list (optdecl V);      (* - option: statements of the link's recipe *)
+    l_user : dict V;                 (* user_options of the link's generate() call *)
+    l_cont : bool                    (* continuation_file= given *)
+  }.
+
+  Definition contfile := nat.        (* number of runs whose state the file carries *)
+
+  (* one generate() call: (options the interpreter is built with, continuation file written) *)
+  Definition run_link (prev : option contfile) (l : link) : result (dict V * contfile) :=
+    do '(o, _) <- merge_options (l_decls l) (l_user l) [];
+    let loaded := if l_cont l then prev else None in
+    Ok (o, match loaded with Some k => S k | None => 1%nat end).
+
+  Fixpoint run_chain (prev : option contfile) (ls : list link)
+    : list (result (dict V * contfile)) :=
+    match ls with
+    | [] => []
+    | l :: r =>
+      match run_link prev l with
+      | Ok (o, c) => Ok (o, c) :: run_chain (Some c) r
+      | Err e => Err e :: run_chain prev r
+      end
+    end.
+
+  (* the options of every run of the chain *)
+  Definition chain_options (prev : option contfile) (ls : list link) : list (result (dict V)) :=
+    map (fun r => do '(o, _) <- r; Ok o) (run_chain prev ls).
+
+  (* a link's options from its own inputs alone *)
+  Definition own_options (l : link) : result (dict V) :=
+    do '(o, _) <- merge_options (l_decls l) (l_user l) []; Ok o.
+
+  (* NOT the code (specification vocabulary for a refuted reading): a continued run that treats the
+     options of the run it continues as supplied by the user *)
+  Fixpoint inheriting_options (carried : dict V) (ls : list link) : list (result (dict V)) :=
+    match ls with
+    | [] => []
+    | l :: r =>
+      let user := dict_update (if l_cont l then carried else []) (l_user l) in
+      match merge_options (l_decls l) user [] with
+      | Ok (o, _) => Ok o :: inheriting_options user r
+      | Err e => Err e :: inheriting_options carried r
+      end
+    end.
+End Chain.
+
+Arguments mkLink {V} l_decls l_user l_cont.
+
 (* ------------------------------------------------------------------ the `include:` string *)
 (* parse_inclusions:  [x.strip() for x in yaml_sobj.get("include", "").split(",")], empty items
    dropped by filter(None, ...).  ASCII white space as str.strip() knows it. *)
@@ -558,7 +619,10 @@ Inductive case :=
         (probes : list (scopes oval * string * list oval))
 (* parse_recipe on file systems (several runs of one process): expected (statements, options) *)
 | CFs (runs : list (fsys string string oval * path *
-                    result (list (pstmt string string) * list (optdecl oval)))).
+                    result (list (pstmt string string) * list (optdecl oval))))
+(* a chain of runs (continued or fresh): per link, the typed value ${{name}} showed for every
+   declared option, or the error of the run *)
+| CChain (links : list (link oval)) (expected : list (result (list (string * oval)))).
 
 Definition check_case (c : case) : bool :=
   match c with
@@ -584,4 +648,6 @@ Definition check_case (c : case) : bool :=
                let '(fs, main, e) := r in
                result_eqb (pair_eqb (list_eqb pstmt_eqb) (list_eqb optdecl_eqb))
                           (fs_parse_recipe fs main) e) runs
+  | CChain links e =>
+    list_eqb (result_eqb dict_eqb) (chain_options None links) e
   end.
